@@ -192,6 +192,8 @@ impl DecodeFrom for String {
     fn decode_from(decoder: &mut Decoder<impl InputSource>) -> Result<Self> {
         // Decode how many bytes are in this string, and attempt to allocate a vec with the necessary capacity.
         let length = decoder.decode_varuint()?;
+        // Ensure the buffer actually holds 'length'-many bytes before allocating any memory for them.
+        decoder.peek_byte_slice_exact(length)?;
         let mut vector = Vec::new();
         vector.try_reserve_exact(length)?;
 
